@@ -1121,6 +1121,15 @@ func factStrs(fn *ssa.Function, site ssa.Instruction) map[string]bool {
 				out[fmt.Sprintf("%s=%v", atomStr(g.cond), g.truth)] = true
 			}
 		}
+		if _, isPhi := f.cond.(*ssa.Phi); isPhi && !f.truth {
+			// a || b || c known false: every disjunct is known false
+			for _, g := range disjuncts(fn, f.cond, 0) {
+				out[fmt.Sprintf("%s=%v", atomStr(g.cond), g.truth)] = true
+				if a, pos := normAtom(g.cond, nil); a != "" {
+					out[fmt.Sprintf("%s=%v", a, g.truth == pos)] = true
+				}
+			}
+		}
 	}
 	return out
 }
@@ -1668,14 +1677,25 @@ func derivesFromDeep(v ssa.Value, ctx0 dctx, src func(ssa.Value, dctx) bool) boo
 		v   ssa.Value
 		n   int
 		top *ssa.Call
+		sig string // the whole chain of entering calls: the same helper body reached through different outer calls is a different visit
 	}
 	seen := map[key]bool{}
+	ctxSig := func(ctx dctx) string {
+		if len(ctx) <= 1 {
+			return ""
+		}
+		var b strings.Builder
+		for _, c := range ctx[:len(ctx)-1] {
+			fmt.Fprintf(&b, "%p;", c)
+		}
+		return b.String()
+	}
 	var rec func(v ssa.Value, ctx dctx, d int) bool
 	rec = func(v ssa.Value, ctx dctx, d int) bool {
 		if v == nil || d > 60 {
 			return false
 		}
-		k := key{v, len(ctx), ctx.top()}
+		k := key{v, len(ctx), ctx.top(), ctxSig(ctx)}
 		if seen[k] {
 			return false
 		}
@@ -2518,4 +2538,29 @@ func forwardedLoad(x ssa.Value) ssa.Value {
 		}
 	}
 	return val
+}
+
+// funcValueBody: the body a func-typed value runs and the parameters of that body that correspond to the arguments of
+// a call through the value: a function literal (its own parameters), a method value x.m (the method, without its
+// receiver), a named function.
+func funcValueBody(v ssa.Value) (*ssa.Function, []*ssa.Parameter) {
+	switch x := v.(type) {
+	case *ssa.MakeClosure:
+		fn, ok := x.Fn.(*ssa.Function)
+		if !ok {
+			return nil, nil
+		}
+		if strings.HasSuffix(fn.Name(), "$bound") || strings.Contains(fn.Synthetic, "bound method wrapper") {
+			if m := unwrapSynthetic(fn); m != nil && m != fn && m.Blocks != nil && len(m.Params) > 0 {
+				return m, m.Params[1:]
+			}
+			return nil, nil
+		}
+		return fn, fn.Params
+	case *ssa.Function:
+		return x, x.Params
+	case *ssa.ChangeType:
+		return funcValueBody(x.X)
+	}
+	return nil, nil
 }
